@@ -50,6 +50,8 @@ type valCase struct {
 	// Pair (multi-valued built-in types): a second option -p/--pair of the same type is declared with the SAME default slice
 	// ("shared": the case's default; "sharedcap": an empty slice with spare capacity)
 	Pair    string      `json:"pair"`
+	// Prerun: command lines run first on the same application object (their outcome is dropped)
+	Prerun   [][]string `json:"prerun"`
 	ExtraEnv bool       `json:"extraenv"` // the plain bool option -x is backed by an environment variable that is set
 	Conv    bool        `json:"conv"`      // declare through the convenience methods (BoolOpt(name, value, desc), ...Ptr): no env, no SetByUser
 }
@@ -548,6 +550,15 @@ func runValues(c valCase) (r valResult) {
 		if read2 != nil {
 			r.Value2 = read2()
 		}
+	}
+	for _, pre := range c.Prerun {
+		func() {
+			defer func() { recover() }()
+			app.Run(append([]string{"app"}, pre...))
+		}()
+		r.Ran, sbu = false, false
+		log = nil
+		errBuf.Reset()
 	}
 	argv := c.Argv
 	if len(c.ArgvHex) > 0 {
